@@ -86,4 +86,10 @@ CHECKS.update({
         note="rustc is the implementation under test; each negative probe sits next to positive controls generated from the same template",
         technique="Lean 4 proof (decision logic stated outright, kernel-decided on generated tables) + rustc probe correspondence"),
 })
+CHECKS.update({
+    'C19': dict(
+        text="The algebraic theorems of C01, C03, C06, C08, C11, C12 quantify over any number of base quantities, exponent vector, coefficient, offset, base factor and label table, so they cover whatever the macros are instantiated with (re-exported at arity 4); kernel-decided obligations on the table regenerated from the harness's own system!/quantity!/unit! invocations (labels functional and trim-stable, base units exactly 1, dimension identities, offsets only where declared). Correspondence: the same line protocol and Lean handlers as for the SI run on a harness-declared 4-base system (fractional, large, tiny and offset coefficients; default, non-identity f64 and f32 base tuples), on units added to SI quantities with unit! (incl. absence from registry/parsing) and on ISQ! aliases over six base-unit tuples; the user system's registry is diffed exhaustively with the generated table",
+        note="the macro bodies are the same code the SI instantiates; what is new here is the instantiation, which the translator reads from the harness source",
+        technique="Lean 4 proof (system-generic theorems + kernel-decided generated table) + correspondence check on a macro-declared system"),
+})
 NOT_APPLICABLE = {}
